@@ -196,6 +196,12 @@ def explore(ctx):
             desc["info"] = dict(desc.get("info", {}), postscriptDefaultWidthX=[20.25, 500.5][(i // 8) % 2], postscriptNominalWidthX=[612.5, 431.5][(i // 8) % 2])
         elif wkind == "explicit-both":
             desc["info"] = dict(desc.get("info", {}), postscriptDefaultWidthX=int(desc["glyphs"][0]["width"]), postscriptNominalWidthX=-20)
+        # font names are orthogonal to the CFF options too: names outside ASCII / Latin-1 (the strings of a 'CFF ' table are
+        # stored in those encodings, CFF2 has none) must not make SOME option combinations fail
+        nm = [None, "\u0152uvre d\u2019Art", None, "Caf\u00e9 \u0100", None, "\u20ac \u00ff"][i % 6]
+        if nm:
+            desc["info"] = dict(desc.get("info", {}), familyName=nm, postscriptWeightName=["Regular", "\u00e9paisse"][(i // 6) % 2])
+            ctx.klass("cff: family name outside ASCII")
         ctx.klass("cff widths:" + wkind)
         base = None
         for opt, subr, ver in GRID:
